@@ -828,6 +828,16 @@ func enumPathsCfg(f *ssa.Function, limit int, cutLoops, noInline bool) ([]upath,
 					}
 					var rs []ssa.Value
 					for k := range x.Results {
+						// a result spilled to a cell (defer, named results): what this very path stored last - or
+						// the zero value when a bare return left the named result alone
+						if u, isU := x.Results[k].(*ssa.UnOp); isU && u.Op == token.MUL {
+							if al, isA := u.X.(*ssa.Alloc); isA && !cellEscapes(al) {
+								if pv := cur.valueAt(u, len(cur.Instrs)-1); pv != ssa.Value(u) {
+									rs = append(rs, pv)
+									continue
+								}
+							}
+						}
 						vs := retValAt(x, k)
 						if len(vs) == 1 {
 							rs = append(rs, vs[0])
